@@ -533,6 +533,7 @@ func (s *scope) createInstance(descriptor *Descriptor) (any, error) {
 
 		// Find the primary service to return
 		var primaryService any
+		var trackErr error
 		for _, reg := range registrations {
 			value := reg.Value
 
@@ -561,9 +562,15 @@ func (s *scope) createInstance(descriptor *Descriptor) (any, error) {
 				Group: reg.Group,
 			}
 
-			if err := s.setInstance(regDescriptor, key, value); err != nil {
-				return nil, err
+			// Keep going on error: every remaining output must still be
+			// handed to setInstance, which disposes it if the scope is closed
+			if err := s.setInstance(regDescriptor, key, value); err != nil && trackErr == nil {
+				trackErr = err
 			}
+		}
+
+		if trackErr != nil {
+			return nil, trackErr
 		}
 
 		if primaryService == nil {
@@ -578,6 +585,7 @@ func (s *scope) createInstance(descriptor *Descriptor) (any, error) {
 
 	// Handle multi-return constructors
 	if descriptor.MultiReturnIndex >= 0 {
+		var trackErr error
 		for _, ret := range info.Returns {
 			if ret.IsError {
 				continue
@@ -601,9 +609,14 @@ func (s *scope) createInstance(descriptor *Descriptor) (any, error) {
 				Group: serviceDescriptor.Group,
 			}
 
-			if err := s.setInstance(serviceDescriptor, key, value); err != nil {
-				return nil, err
+			// Keep going on error, see above
+			if err := s.setInstance(serviceDescriptor, key, value); err != nil && trackErr == nil {
+				trackErr = err
 			}
+		}
+
+		if trackErr != nil {
+			return nil, trackErr
 		}
 
 		return results[descriptor.MultiReturnIndex].Interface(), nil
